@@ -1,12 +1,13 @@
 (** Model of object listing, lookup and purge of the file-system store
-    (src/ocfl/store/fs.rs:39-40, 126-274, 338-365, 569-636, 984-1153, 1222-1314;
-     src/ocfl/repo.rs:237-271), as of /repo 2517003 (repairs 38fe584, 4564259, 3fb070d, 01aa490, 3802aa0).
+    (src/ocfl/store/fs.rs:39-40, 126-274, 338-365, 569-636, 984-1158, 1227-1319;
+     src/ocfl/repo.rs:237-271), as of /repo 5a727de (repairs 38fe584, 4564259, 3fb070d, 01aa490, 3802aa0, 5a727de).
 
     A repository is an abstract directory tree.  [walk] is [InventoryIter::next]
     (depth-first walk, object root = directory holding a FILE whose name starts
     with [0=ocfl_object_], no descent into object roots, the directory NAMED
     [extensions] is skipped only directly below the iterator's root),
-    [extract_object_id] is the regex pre-filter over the raw inventory text,
+    [extract_object_id] is the regex pre-filter over the raw inventory text
+    (since 5a727de it captures the whole JSON string and decodes it),
     [iter_items] the iterator with an optional id matcher, [get_inventory] the
     lookup through the id->path cache, the layout path or a scan,
     [purge_object] the purge with its guards and its cache eviction.
@@ -80,7 +81,7 @@ Fixpoint names_unique (t : tree) : bool :=
               forallb (fun e => let '(_, c) := e in names_unique c) es
   end.
 
-(** * Object roots: fs.rs:1222-1236 [is_object_root] *)
+(** * Object roots: fs.rs:1227-1241 [is_object_root] *)
 Definition is_decl_entry (e : name * tree) : bool :=
   match snd e with
   | File _ => starts_with K_OBJECT_NAMASTE_FILE_PREFIX (fst e)   (* entry_path.is_file() && name.starts_with(..) *)
@@ -89,15 +90,15 @@ Definition is_decl_entry (e : name * tree) : bool :=
 
 Definition is_object_root (es : entries) : bool := existsb is_decl_entry es.
 
-(** * The walk: fs.rs:1088-1152.
+(** * The walk: fs.rs:1093-1157.
     The stack of ReadDir iterators is a depth-first pre-order traversal: entering
-    a sub-directory pushes the current iterator (l.1140) and resumes it after the
-    sub-directory is exhausted (l.1098-1102), i.e. structural recursion.
+    a sub-directory pushes the current iterator (l.1145) and resumes it after the
+    sub-directory is exhausted (l.1103-1107), i.e. structural recursion.
 
     [walk_gen deep] is the loop for the entries of one directory.  With
     [deep = false] no directory is skipped by name: that is what the loop does
     for every directory other than the iterator's root, because the test of
-    l.1122-1126 is [name == extensions && parent == self.root] (38fe584).
+    l.1127-1131 is [name == extensions && parent == self.root] (38fe584).
     [deep = true] skips the name at every depth: the walk BEFORE 38fe584
     ([walk_before_fix], kept for the historical lemmas only). *)
 Fixpoint walk_gen (deep : bool) (t : tree) : list objroot :=
@@ -107,11 +108,11 @@ Fixpoint walk_gen (deep : bool) (t : tree) : list objroot :=
       flat_map (fun e =>
         let '(n, c) := e in
         match c with
-        | File _ => []                                         (* l.1117 ftype.is_dir() *)
+        | File _ => []                                         (* l.1122 ftype.is_dir() *)
         | Dir ces =>
             if deep && bytes_eqb n EXT then []
-            else if is_object_root ces then [([n], ces)]       (* l.1128-1138: yield, no descent *)
-            else map (fun r => (n :: fst r, snd r)) (walk_gen deep c)   (* l.1139-1147 *)
+            else if is_object_root ces then [([n], ces)]       (* l.1133-1143: yield, no descent *)
+            else map (fun r => (n :: fst r, snd r)) (walk_gen deep c)   (* l.1144-1152 *)
         end) es
   end.
 
@@ -124,11 +125,11 @@ Definition walk (t : tree) : list objroot :=
       flat_map (fun e =>
         let '(n, c) := e in
         match c with
-        | File _ => []                                         (* l.1117 *)
+        | File _ => []                                         (* l.1122 *)
         | Dir ces =>
-            if bytes_eqb n EXT then []                         (* l.1122-1126 *)
-            else if is_object_root ces then [([n], ces)]       (* l.1128-1138 *)
-            else map (fun r => (n :: fst r, snd r)) (walk_gen false c)   (* l.1139-1147: parent <> root below *)
+            if bytes_eqb n EXT then []                         (* l.1127-1131 *)
+            else if is_object_root ces then [([n], ces)]       (* l.1133-1143 *)
+            else map (fun r => (n :: fst r, snd r)) (walk_gen false c)   (* l.1144-1152: parent <> root below *)
         end) es
   end.
 
@@ -172,18 +173,129 @@ Definition serialize_inventory (pretty : bool) (id rest : bytes) : bytes :=
   (if pretty then bs [123; 10; 32; 32] ++ b """id"": """ else b "{""id"":""")
     ++ json_escape id ++ QUO :: rest.
 
-(** * The id pre-filter: fs.rs:39-40, 1056-1085.
-    Regex QUOTE id QUOTE \s* : \s* QUOTE ( [^QUOTE]+ ) QUOTE  (= K_OBJECT_ID_MATCHER, pinned in
-    Proofs/ListingFacts.v; Unicode mode: \s is the White_Space property),
-    applied by grep-searcher line by line (the pattern can match the line
-    terminator, so the searcher takes the line-by-line path and matches each
-    line without its terminator); the first capture of the first matching line
-    wins (matches.get(0)).  No JSON unescaping is done.
+(** * Decoding a JSON string (serde_json's parse_str with validation: the same
+    routine reads the id member of a whole inventory, fs.rs:1303-1307, and the
+    captured string of the pre-filter, fs.rs:1068).  Returns the UNESCAPED text. *)
+Definition json_ws (a : N) : bool := (a =? 32) || (a =? 9) || (a =? 10) || (a =? 13).
 
-    Every sub-pattern is deterministic (\s* is followed by a non-space, the capture class by
-    a quote), so leftmost-first matching is: try every start position from the
-    left.  The scan below runs over the whole text and treats LF as a barrier no
-    part of a match may contain; that is the same as splitting into lines first. *)
+Fixpoint skip_json_ws (s : bytes) : bytes :=
+  match s with
+  | [] => []
+  | c :: r => if json_ws (code c) then skip_json_ws r else s
+  end.
+
+Definition hexval (c : ascii) : option N :=
+  let n := code c in
+  if (48 <=? n) && (n <=? 57) then Some (n - 48)
+  else if (97 <=? n) && (n <=? 102) then Some (n - 87)
+  else if (65 <=? n) && (n <=? 70) then Some (n - 55)
+  else None.
+
+Definition hex4 (a c d e : ascii) : option N :=
+  match hexval a, hexval c, hexval d, hexval e with
+  | Some w, Some x, Some y, Some z => Some (((w * 16 + x) * 16 + y) * 16 + z)
+  | _, _, _, _ => None
+  end.
+
+(** UTF-8 of a BMP code point that is no surrogate *)
+Definition utf8_bmp (cp : N) : option bytes :=
+  if cp <? 128 then Some [ascii_of_N cp]
+  else if cp <? 2048 then Some [ascii_of_N (192 + cp / 64); ascii_of_N (128 + cp mod 64)]
+  else if (55296 <=? cp) && (cp <=? 57343) then None
+  else Some [ascii_of_N (224 + cp / 4096); ascii_of_N (128 + (cp / 64) mod 64); ascii_of_N (128 + cp mod 64)].
+
+(** UTF-8 of a supplementary code point (0x10000 ..= 0x10FFFF) *)
+Definition utf8_supp (cp : N) : bytes :=
+  [ascii_of_N (240 + cp / 262144); ascii_of_N (128 + (cp / 4096) mod 64);
+   ascii_of_N (128 + (cp / 64) mod 64); ascii_of_N (128 + cp mod 64)].
+
+Definition simple_escape (e : ascii) : option ascii :=
+  let n := code e in
+  if n =? 34 then Some QUO
+  else if n =? 92 then Some BSL
+  else if n =? 47 then Some "/"%char
+  else if n =? 98 then Some (ascii_of_N 8)
+  else if n =? 102 then Some (ascii_of_N 12)
+  else if n =? 110 then Some (ascii_of_N 10)
+  else if n =? 114 then Some (ascii_of_N 13)
+  else if n =? 116 then Some (ascii_of_N 9)
+  else None.
+
+Definition prepend (p : bytes) (r : option (bytes * bytes)) : option (bytes * bytes) :=
+  match r with Some (a, z) => Some (p ++ a, z) | None => None end.
+
+(** [s] starts right after the opening quote; result: decoded string and the
+    text after the closing quote.  Errors of serde_json (None): a raw control
+    character, an unknown escape, a short or non-hex \u escape, a leading
+    surrogate that is not followed by a \u escape of a trailing surrogate, a
+    trailing surrogate on its own. *)
+Fixpoint json_unquote (s : bytes) : option (bytes * bytes) :=
+  match s with
+  | [] => None
+  | c :: r =>
+      if code c =? 34 then Some ([], r)
+      else if code c =? 92 then
+        match r with
+        | [] => None
+        | e :: r1 =>
+            match simple_escape e with
+            | Some x => prepend [x] (json_unquote r1)
+            | None =>
+                if code e =? 117 then
+                  match r1 with
+                  | h1 :: h2 :: h3 :: h4 :: r5 =>
+                      match hex4 h1 h2 h3 h4 with
+                      | Some cp =>
+                          if (55296 <=? cp) && (cp <=? 56319) then
+                            match r5 with
+                            | b1 :: u1 :: g1 :: g2 :: g3 :: g4 :: r11 =>
+                                if (code b1 =? 92) && (code u1 =? 117) then
+                                  match hex4 g1 g2 g3 g4 with
+                                  | Some lo =>
+                                      if (56320 <=? lo) && (lo <=? 57343)
+                                      then prepend (utf8_supp (65536 + (cp - 55296) * 1024 + (lo - 56320)))
+                                                   (json_unquote r11)
+                                      else None
+                                  | None => None
+                                  end
+                                else None
+                            | _ => None
+                            end
+                          else
+                            match utf8_bmp cp with
+                            | Some u => prepend u (json_unquote r5)
+                            | None => None
+                            end
+                      | None => None
+                      end
+                  | _ => None
+                  end
+                else None
+            end
+        end
+      else if code c <? 32 then None
+      else prepend [c] (json_unquote r)
+  end.
+
+(** * The id pre-filter: fs.rs:39-40, 1056-1090 (as repaired by 5a727de).
+    Regex QUOTE id QUOTE \s* : \s* ( QUOTE (?: [^QUOTE BACKSLASH] | BACKSLASH . )+ QUOTE )
+    (= K_OBJECT_ID_MATCHER, pinned in Proofs/ListingFacts.v; Unicode mode: \s is
+    the White_Space property, [.] is any character but LF), applied by
+    grep-searcher line by line (the pattern can match the line terminator, so the
+    searcher takes the line-by-line path and matches each line without its
+    terminator); the first capture of the first matching line wins
+    (matches.get(0)).  The capture is the JSON string WITH its quotes; the id is
+    what serde_json decodes it to (l.1068), or, when it does not decode, the raw
+    text between the quotes (l.1069).
+
+    Every sub-pattern is deterministic (\s* is followed by a non-space; inside
+    the string a backslash can only start the second alternative, a quote can
+    only end the string), so leftmost-first matching is: try every start
+    position from the left.  The scan below runs over the whole text and treats
+    LF as a barrier no part of a match may contain; that is the same as
+    splitting into lines first.  On valid UTF-8 matching characters and
+    matching bytes consume the same text (no byte of a multi-byte character is
+    a quote, a backslash or LF). *)
 Definition ws1 (a : N) : bool := ((9 <=? a) && (a <=? 13) && negb (a =? 10)) || (a =? 32).
 Definition ws2 (a c : N) : bool := (a =? 194) && ((c =? 133) || (c =? 160)).      (* U+0085, U+00A0 *)
 Definition ws3 (a c d : N) : bool :=
@@ -209,18 +321,41 @@ Fixpoint skip_ws (s : bytes) : bytes :=
       end
   end.
 
-(** longest prefix without a quote (and without LF: end of line) and the rest *)
-Fixpoint take_nonquote (s : bytes) : bytes * bytes :=
-  match s with
-  | [] => ([], [])
-  | c :: r =>
-      if (code c =? 34) || (code c =? 10) then ([], s)
-      else let (a, z) := take_nonquote r in (c :: a, z)
-  end.
-
 Definition nonempty (s : bytes) : bool := match s with [] => false | _ => true end.
 
-(** [s] is the text right after the key: \s* : \s* QUOTE ( [^QUOTE]+ ) QUOTE *)
+(** [s] is the text right after the opening quote: the units
+    [^QUOTE BACKSLASH] | BACKSLASH . up to the first quote that is not part of a unit;
+    result: the text between the quotes and the text after the closing quote.
+    No match (None): the line ends first (LF or the end of the text), also right
+    after a backslash ([.] does not match LF). *)
+Fixpoint take_string_body (s : bytes) : option (bytes * bytes) :=
+  match s with
+  | [] => None
+  | c :: r =>
+      if code c =? 34 then Some ([], r)
+      else if code c =? 10 then None
+      else if code c =? 92 then
+        match r with
+        | [] => None
+        | e :: r1 => if code e =? 10 then None else prepend [c; e] (take_string_body r1)
+        end
+      else prepend [c] (take_string_body r)
+  end.
+
+(** fs.rs:1066-1070: [raw] is the capture, quotes included; serde_json::from_str
+    must consume all of it (trailing text is an error); the fallback is
+    [raw[1..len-1]].  An inventory written by rocfl always decodes; the fallback
+    is reachable with hand-written inventories only (a raw TAB inside the string,
+    an unknown escape, a lone surrogate, ...) - such an inventory also fails the
+    full parse (l.1043), so the object is an error item if the matcher accepts
+    the raw text and is skipped otherwise. *)
+Definition decode_id_text (body : bytes) : bytes :=
+  match json_unquote (body ++ [QUO]) with
+  | Some (i, []) => i
+  | _ => body
+  end.
+
+(** [s] is the text right after the key: \s* : \s* ( QUOTE units+ QUOTE ) *)
 Definition match_after_key (s : bytes) : option bytes :=
   match skip_ws s with
   | c :: r =>
@@ -228,9 +363,9 @@ Definition match_after_key (s : bytes) : option bytes :=
         match skip_ws r with
         | q :: r2 =>
             if code q =? 34 then
-              match take_nonquote r2 with
-              | (cap, q2 :: _) => if (code q2 =? 34) && nonempty cap then Some cap else None
-              | (_, []) => None
+              match take_string_body r2 with
+              | Some (body, _) => if nonempty body then Some (decode_id_text body) else None
+              | None => None
               end
             else None
         | [] => None
@@ -253,85 +388,50 @@ Fixpoint extract_object_id (s : bytes) : option bytes :=
       else extract_object_id r
   end.
 
-(** * Parsing the id back (serde_json::from_slice, fs.rs:1298-1302), restricted to
-    inventories whose first member is the id (what rocfl and every writer that
-    follows the spec's field order produces).  Returns the UNESCAPED id. *)
-Definition json_ws (a : N) : bool := (a =? 32) || (a =? 9) || (a =? 10) || (a =? 13).
-
-Fixpoint skip_json_ws (s : bytes) : bytes :=
+(** the pre-filter BEFORE 5a727de (historical lemmas only): the regex was
+    QUOTE id QUOTE \s* : \s* QUOTE ( [^QUOTE]+ ) QUOTE and the capture was compared as it
+    stood - the ESCAPED id cut at its first quote *)
+Fixpoint take_nonquote (s : bytes) : bytes * bytes :=
   match s with
-  | [] => []
-  | c :: r => if json_ws (code c) then skip_json_ws r else s
+  | [] => ([], [])
+  | c :: r =>
+      if (code c =? 34) || (code c =? 10) then ([], s)
+      else let (a, z) := take_nonquote r in (c :: a, z)
   end.
 
-Definition hexval (c : ascii) : option N :=
-  let n := code c in
-  if (48 <=? n) && (n <=? 57) then Some (n - 48)
-  else if (97 <=? n) && (n <=? 102) then Some (n - 87)
-  else if (65 <=? n) && (n <=? 70) then Some (n - 55)
-  else None.
-
-Definition hex4 (a c d e : ascii) : option N :=
-  match hexval a, hexval c, hexval d, hexval e with
-  | Some w, Some x, Some y, Some z => Some (((w * 16 + x) * 16 + y) * 16 + z)
-  | _, _, _, _ => None
+Definition match_after_key_before_fix (s : bytes) : option bytes :=
+  match skip_ws s with
+  | c :: r =>
+      if code c =? 58 then
+        match skip_ws r with
+        | q :: r2 =>
+            if code q =? 34 then
+              match take_nonquote r2 with
+              | (cap, q2 :: _) => if (code q2 =? 34) && nonempty cap then Some cap else None
+              | (_, []) => None
+              end
+            else None
+        | [] => None
+        end
+      else None
+  | [] => None
   end.
 
-(** UTF-8 of a BMP code point; surrogates are not handled by the model (None) *)
-Definition utf8_bmp (cp : N) : option bytes :=
-  if cp <? 128 then Some [ascii_of_N cp]
-  else if cp <? 2048 then Some [ascii_of_N (192 + cp / 64); ascii_of_N (128 + cp mod 64)]
-  else if (55296 <=? cp) && (cp <=? 57343) then None
-  else Some [ascii_of_N (224 + cp / 4096); ascii_of_N (128 + (cp / 64) mod 64); ascii_of_N (128 + cp mod 64)].
-
-Definition simple_escape (e : ascii) : option ascii :=
-  let n := code e in
-  if n =? 34 then Some QUO
-  else if n =? 92 then Some BSL
-  else if n =? 47 then Some "/"%char
-  else if n =? 98 then Some (ascii_of_N 8)
-  else if n =? 102 then Some (ascii_of_N 12)
-  else if n =? 110 then Some (ascii_of_N 10)
-  else if n =? 114 then Some (ascii_of_N 13)
-  else if n =? 116 then Some (ascii_of_N 9)
-  else None.
-
-Definition prepend (p : bytes) (r : option (bytes * bytes)) : option (bytes * bytes) :=
-  match r with Some (a, z) => Some (p ++ a, z) | None => None end.
-
-(** [s] starts right after the opening quote; result: decoded string and the
-    text after the closing quote *)
-Fixpoint json_unquote (s : bytes) : option (bytes * bytes) :=
+Fixpoint extract_object_id_before_fix (s : bytes) : option bytes :=
   match s with
   | [] => None
-  | c :: r =>
-      if code c =? 34 then Some ([], r)
-      else if code c =? 92 then
-        match r with
-        | [] => None
-        | e :: r1 =>
-            match simple_escape e with
-            | Some x => prepend [x] (json_unquote r1)
-            | None =>
-                if code e =? 117 then
-                  match r1 with
-                  | h1 :: h2 :: h3 :: h4 :: r5 =>
-                      match hex4 h1 h2 h3 h4 with
-                      | Some cp => match utf8_bmp cp with
-                                   | Some u => prepend u (json_unquote r5)
-                                   | None => None
-                                   end
-                      | None => None
-                      end
-                  | _ => None
-                  end
-                else None
-            end
+  | _ :: r =>
+      if starts_with ID_KEY s then
+        match match_after_key_before_fix (skipn 4 s) with
+        | Some x => Some x
+        | None => extract_object_id_before_fix r
         end
-      else if code c <? 32 then None
-      else prepend [c] (json_unquote r)
+      else extract_object_id_before_fix r
   end.
 
+(** * Parsing the id of a whole inventory (serde_json::from_slice, fs.rs:1303-1307),
+    restricted to inventories whose first member is the id (what rocfl and every
+    writer that follows the spec's field order produces). *)
 Definition parse_inventory_id (text : bytes) : option bytes :=
   match skip_json_ws text with
   | o :: r =>
@@ -359,7 +459,7 @@ Definition parse_inventory_id (text : bytes) : option bytes :=
   | [] => None
   end.
 
-(** fs.rs:1266-1314 [parse_inventory] / [resolve_inventory_path]: the mutable-HEAD inventory wins if that
+(** fs.rs:1271-1319 [parse_inventory] / [resolve_inventory_path]: the mutable-HEAD inventory wins if that
     path exists, else <root>/inventory.json; the result here is the parsed id *)
 Definition parse_inventory (ces : entries) : res bytes :=
   let parse c := match parse_inventory_id c with Some i => Ok i | None => Err end in
@@ -390,9 +490,9 @@ Definition create_if_matches (matcher : option (bytes -> bool)) (r : objroot) : 
       | Some (File c) =>
           match extract_object_id c with
           | Some x => if m x then [item_of_res p (parse_inventory ces)] else []   (* l.1041-1047 *)
-          | None => [IErr p]                                               (* l.1079: no match *)
+          | None => [IErr p]                                               (* l.1084: no match *)
           end
-      | _ => [IErr p]                                                      (* l.1070: search_path failed *)
+      | _ => [IErr p]                                                      (* l.1075: search_path failed *)
       end
   end.
 
@@ -421,7 +521,7 @@ Inductive getres :=
 | Corrupt          (* RocflError::CorruptObject: another id lives at that path *)
 | GenErr.          (* the path exists but no inventory can be parsed there *)
 
-(** fs.rs:1304-1314 [resolve_inventory_path(..).0.exists()]: the mutable-HEAD
+(** fs.rs:1309-1319 [resolve_inventory_path(..).0.exists()]: the mutable-HEAD
     inventory path exists (whatever it is), else <dir>/inventory.json exists *)
 Definition has_inventory (ces : entries) : bool :=
   match lookup_path (Dir ces) MUTABLE_HEAD_INV with
@@ -458,7 +558,7 @@ Fixpoint nested_in_object (t : tree) (p : path) : bool :=
       end
   end.
 
-(** fs.rs:232-274.  is_relative_descendant (l.235-237, 1240-1250, 3fb070d): of
+(** fs.rs:232-274.  is_relative_descendant (l.235-237, 1245-1255, 3fb070d): of
     the paths representable here (Normal components) only the empty one fails. *)
 Definition get_inventory_by_path (t : tree) (id : bytes) (p : path) : getres :=
   match p with
@@ -559,7 +659,7 @@ Definition validate_object_root (t : tree) (p : path) : bool :=
   | n :: _ => negb (bytes_eqb n EXT) && negb (nested_in_object t p)
   end.
 
-(** fs.rs:1253-1261 [contains_object_root]: WalkDir with min_depth 2 - a FILE
+(** fs.rs:1258-1266 [contains_object_root]: WalkDir with min_depth 2 - a FILE
     named like an object declaration in some sub-directory, at any depth *)
 Fixpoint has_decl_file (t : tree) : bool :=
   match t with
